@@ -41,6 +41,12 @@ def run(tier):
         mod = "f" if e["case"].endswith("f") else "i"
         pc = specs[cid]
         kind = e["conv"][4:] if e["conv"].startswith("try_") else e["conv"]
+        if pc.kind == "nested":
+            fam, k2 = kind.split(":")
+            ck.cell(["nested", fam, pc.depth, sorted(k for k, v in pc.extra.items() if v), pc.upd, k2, mod])
+            if e["got"] != e["want"]:
+                ck.violation(f"params|wrong_value|nested_{fam}|{k2}|update", dict(input=pc.inputs[mod], conversion=e["conv"], got=e["got"], want=e["want"]))
+            continue
         if pc.kind == "hinted":
             ids = [p[0] for p in e.get("probes", [])]
             want_ids = pc.expect[mod][kind]
